@@ -14,6 +14,7 @@ C-contiguous call).
 import itertools, math
 from fractions import Fraction
 import numpy as np
+from mc.explore import recycle
 
 ID = "C17"
 # computational entry points whose results are watched by the engine's retained-result oracle (mc/explore.py)
@@ -341,7 +342,7 @@ def check_tuple(ctx, AR, phi, mean, ini, x, exact=True, mpm=None):
     e0 = [0.0 if v != v else v for v in x]
     y = None
     try:
-        y = AR.armodel_sim(params.copy(), xa.copy(), **kwargs_of(mean, ini))
+        y = AR.armodel_sim(recycle('params', params), recycle('x', xa), **kwargs_of(mean, ini))
     except Exception as e:
         ctx.case(nt, outcome="raise")
         ctx.violation("sim:raised:%s:%s" % (type(e).__name__, suffix), case, "armodel_sim raised %r on valid arguments" % (e,))
@@ -370,7 +371,7 @@ def check_tuple(ctx, AR, phi, mean, ini, x, exact=True, mpm=None):
         # B: residual(sim(e)) = e
         if not np.any(np.isnan(y)):
             try:
-                r = AR.armodel_residual(params.copy(), y.copy(), sim_mean=m_eff, sim_ini=ini)
+                r = AR.armodel_residual(recycle('params', params), recycle('x', y), sim_mean=m_eff, sim_ini=ini)
                 ctx.case(nt, outcome=r.tobytes())
                 b = first_bad(r, e0, tol)
                 if r.shape != xa.shape:
@@ -389,7 +390,7 @@ def check_tuple(ctx, AR, phi, mean, ini, x, exact=True, mpm=None):
         if not fin:
             # nanmean undefined: executed, any behaviour accepted
             try:
-                AR.armodel_residual(params.copy(), xa.copy(), sim_ini=ini)
+                AR.armodel_residual(recycle('params', params), recycle('x', xa), sim_ini=ini)
                 ctx.case(False, outcome="value")
             except Exception:
                 ctx.case(False, outcome="raise")
@@ -409,7 +410,7 @@ def check_tuple(ctx, AR, phi, mean, ini, x, exact=True, mpm=None):
     scale = max([1.0] + [abs(float(v)) for v in rref] + [abs(v) for v in fin])
     tol = TOL * scale
     try:
-        r = AR.armodel_residual(params.copy(), xa.copy(), **kw)
+        r = AR.armodel_residual(recycle('params', params), recycle('x', xa), **kw)
     except Exception as e:
         ctx.case(nt, outcome="raise")
         ctx.violation("residual:raised:%s:%s" % (type(e).__name__, suffix), case, "armodel_residual raised %r on valid arguments" % (e,))
@@ -433,7 +434,7 @@ def check_tuple(ctx, AR, phi, mean, ini, x, exact=True, mpm=None):
     # D: sim(residual(x)) = x off the NaN positions
     if not np.any(np.isnan(r)):
         try:
-            y2 = AR.armodel_sim(params.copy(), r.copy(), sim_mean=m_res, **({} if ini is None else {"sim_ini": ini}))
+            y2 = AR.armodel_sim(recycle('params', params), recycle('x', r), sim_mean=m_res, **({} if ini is None else {"sim_ini": ini}))
         except Exception as e:
             ctx.case(nt, outcome="raise")
             ctx.violation("sim:raised:%s:%s" % (type(e).__name__, suffix), case, "armodel_sim(residual(x)) raised %r" % (e,))
